@@ -1240,6 +1240,84 @@ fn lock_rule(case: &Value) {
     println!("{}", serde_json::to_string(&json!({"rejected": v_act.is_some(), "locked_rejected": v_locked.is_some(), "free_rejected": v_free.is_some()})).unwrap());
 }
 
+/// Collection flavour of the insertion evaluator (C15): the solution has one used tour, the caller hands over that tour plus fresh
+/// ones; cost per (vehicle, job) pair from a table (vehicle i, job j: 100 * (n - i) + j, so fresh tours are cheaper).
+fn collect_all(case: &Value) {
+    use vrp_core::models::{Extras, FeatureBuilder, Problem};
+    let n = case["routes"].as_u64().unwrap() as usize;
+    let n_jobs = case["jobs"].as_u64().unwrap() as usize;
+    let fold_jobs = case["fold_jobs"].as_bool().unwrap();
+    let pair: Vec<Vec<Float>> = (0..n).map(|i| (0..n_jobs + 2).map(|j| (100 * (n - i) + j) as Float).collect()).collect();
+    let vehicles = (0..n)
+        .map(|idx| {
+            let mut dimens = Dimensions::default();
+            dimens.set_vehicle_id(format!("v{idx}"));
+            Arc::new(Vehicle {
+                profile: Profile::default(),
+                costs: costs(&Value::Null),
+                dimens,
+                details: vec![VehicleDetail {
+                    start: Some(VehiclePlace { location: 0, time: TimeInterval { earliest: Some(0.), latest: None } }),
+                    end: None,
+                }],
+            })
+        })
+        .collect::<Vec<_>>();
+    let driver = Driver { costs: costs(&Value::Null), dimens: Default::default(), details: vec![] };
+    let fleet = Arc::new(Fleet::new(vec![Arc::new(driver)], vehicles, |_| |_| 0));
+    let transport: Arc<dyn TransportCost> =
+        Arc::new(Matrix { dur: HashMap::new(), dist: HashMap::new(), dur_default: 0., dist_default: 0. });
+    let activity_cost: Arc<dyn ActivityCost> = Arc::new(SimpleActivityCost::default());
+    let feature = FeatureBuilder::default()
+        .with_name("table")
+        .with_objective(PerVehicleObjective { route: vec![], activity: vec![0.; n_jobs + 2], pair: Some(pair.clone()) })
+        .build()
+        .unwrap();
+    let goal_ctx = GoalContextBuilder::with_features(&[feature]).unwrap().build().unwrap();
+    let logger: vrp_core::rosomaxa::utils::InfoLogger = Arc::new(|_| ());
+    let mk_job = |idx: usize| {
+        let mut dimens = Dimensions::default();
+        dimens.set_job_id(format!("j{idx}"));
+        Job::Single(Arc::new(Single {
+            places: vec![Place { location: Some(1), duration: 0., times: vec![TimeSpan::Window(TimeWindow::max())] }],
+            dimens,
+        }))
+    };
+    let jobs: Vec<Job> = (0..n_jobs).map(mk_job).collect();
+    let seated = mk_job(n_jobs); // the job already served by the one used tour
+    let extra = mk_job(n_jobs + 1); // pads `required` when the per-job layout is wanted
+    let all_jobs: Vec<Job> = jobs.iter().cloned().chain([seated.clone(), extra.clone()]).collect();
+    let jobs_index = vrp_core::models::problem::Jobs::new(&fleet, all_jobs, transport.as_ref(), &logger).unwrap();
+    let problem = Arc::new(Problem {
+        fleet: fleet.clone(),
+        jobs: Arc::new(jobs_index),
+        locks: vec![],
+        goal: Arc::new(goal_ctx),
+        activity: activity_cost,
+        transport,
+        extras: Arc::new(Extras::default()),
+    });
+    let mut ictx = InsertionContext::new_empty(problem, Arc::new(vrp_core::rosomaxa::utils::Environment::default()));
+    let find = |i: usize| fleet.actors.iter().find(|a| a.vehicle.dimens.get_vehicle_id().unwrap() == &format!("v{i}")).unwrap().clone();
+    // the solution uses vehicle 0 only
+    let mut used = ictx.solution.registry.get_route(&find(0)).unwrap();
+    used.route_mut().tour.insert_last(Activity::new_with_job(seated.to_single().clone()));
+    ictx.solution.routes.push(used);
+    ictx.solution.required = if fold_jobs { jobs.iter().cloned().chain([extra]).collect() } else { vec![] };
+    let fresh: Vec<RouteContext> = (1..n).map(|i| RouteContext::new(find(i))).collect();
+    let route_refs: Vec<&RouteContext> = ictx.solution.routes.iter().chain(fresh.iter()).collect();
+    let job_refs: Vec<&Job> = jobs.iter().collect();
+    let results = PositionInsertionEvaluator::default().verif_evaluate_and_collect_all(
+        &ictx,
+        &job_refs,
+        &route_refs,
+        &LegSelection::Exhaustive,
+        &BestResultSelector::default(),
+    );
+    let costs: Vec<Option<Float>> = results.iter().map(|r| r.as_success().map(|s| s.cost.iter().next().unwrap_or(0.))).collect();
+    println!("{}", serde_json::to_string(&json!({"costs": costs, "pair": pair})).unwrap());
+}
+
 /// `Statistic + Statistic` through the public operator.
 fn statistic_sum(case: &Value) {
     use vrp_pragmatic::format::solution::{Statistic, Timing};
@@ -1295,6 +1373,9 @@ fn main() {
     }
     if case["kind"] == "group_state" {
         return group_state(&case);
+    }
+    if case["kind"] == "collect_all" {
+        return collect_all(&case);
     }
     if case["kind"] == "lock_rule" {
         return lock_rule(&case);
